@@ -209,6 +209,27 @@ def main():
             with open(path, "w") as f:
                 json.dump({"property": pid, "what": of["what"], "case": of["case"]}, f, indent=1)
             violations.append((path, of["what"], False))
+        # make the first replay small (time-boxed; never decides anything)
+        fresh = [of for of in result.get("oracle_failures", []) if of.get("finding") not in known_ids]
+        if fresh and not a.replay and os.environ.get("VERIF_NO_SHRINK") != "1":
+            try:
+                import shrink
+                m = shrink.minimise(spec, pid, fresh[0], os.path.join(BUILD, "shrink", pid), budget_s=float(os.environ.get("VERIF_SHRINK_S", "40")))
+                if m:
+                    mpath = os.path.join(VERIF, "evidence", "replay", f"{pid}-{fresh[0]['id']}.min.json")
+                    with open(mpath, "w") as f:
+                        json.dump({"property": pid, "what": fresh[0]["what"], "case": m["case"],
+                                   "note": f"minimised from {pid}-{fresh[0]['id']}.json: {m['removed']} steps/records dropped in {m['trials']} trials; "
+                                           "the same oracle failure is reported on this input"}, f, indent=1)
+                    opath = os.path.join(VERIF, "evidence", "replay", f"{pid}-{fresh[0]['id']}.json")
+                    with open(opath) as f:
+                        orig = json.load(f)
+                    orig["minimized"] = mpath
+                    with open(opath, "w") as f:
+                        json.dump(orig, f, indent=1)
+                    notes.append(f"minimised replay: {mpath} ({m['removed']} steps/records dropped in {m['trials']} trials)")
+            except Exception:
+                notes.append("shrinking failed (ignored): " + traceback.format_exc()[-400:])
         # known findings: replayed by spec.run (result["findings_seen"])
         for k in known:
             if k["id"] in result.get("findings_seen", {}):
